@@ -28,6 +28,8 @@ type scriptResult struct {
 	err      error
 	canon    string
 	equivCrt bool
+	merged   int
+	evidence int
 }
 
 // runScript executes one script on a fresh real Voter and (when drv != nil) on the reset Lean model.
@@ -35,7 +37,7 @@ func runScript(lines []string, drv *vh.Driver) scriptResult {
 	res := scriptResult{statuses: map[string]int{}}
 	var w *world
 	for _, l := range lines {
-		if strings.HasPrefix(l, "E2E ") {
+		if strings.HasPrefix(l, "E2E") {
 			var err error
 			w, err = newE2EWorld(l)
 			if err != nil {
@@ -56,7 +58,7 @@ func runScript(lines []string, drv *vh.Driver) scriptResult {
 	ctxs := map[string]bool{}
 	var canon strings.Builder
 	for n, l := range lines {
-		if l == "" || strings.HasPrefix(l, "E2E ") {
+		if l == "" || strings.HasPrefix(l, "E2E") {
 			continue
 		}
 		if strings.HasPrefix(l, "U ") {
@@ -151,6 +153,10 @@ func runScript(lines []string, drv *vh.Driver) scriptResult {
 	res.contexts = len(ctxs)
 	res.canon = canon.String()
 	res.equivCrt = w.led.nEquivCert
+	res.evidence = w.led.nEvidence
+	if w.e2e != nil {
+		res.merged = w.e2e.nMerged
+	}
 	return res
 }
 
@@ -260,6 +266,7 @@ func run(c *vh.Ctx) error {
 		res.DistN("commits", r.commits)
 		res.DistN("own-precommits", r.precs)
 		res.DistN("double-voter-observations", b01(r.doubles > 0))
+		res.DistN("double-vote-evidence-posted(BLS world)", r.evidence)
 		if r.crashed {
 			res.Dist("voter-panicked(predicted)")
 		}
@@ -351,9 +358,10 @@ func run(c *vh.Ctx) error {
 	probes(c, drv)
 
 	res.Partial = append(res.Partial,
-		"BLS vote aggregation (vote_bls.go aggregateVotes / the BLS branch of verifyVotes) is not exercised: the driven Voter signs with secp256k1",
+		"BLS pairing arithmetic is trusted; the BLS vote path itself is exercised end to end in the E2EB worlds",
 		"event-mux scheduling between Server, MessageHandler and Voter is an explicit order of deliveries, not Go scheduling",
-		"staking evidence emitted for double votes (C05) is not compared")
+		"staking evidence emitted for double votes (C05) is not modelled; the oracle checks it is only posted for a stored vote of another hash",
+		"Server.updateBlockHeader's merge is checked at oracle level (merged header re-verified by the real verifier), not modelled")
 	keys := make([]string, 0, len(res.Distribution))
 	for k := range res.Distribution {
 		keys = append(keys, k)
